@@ -157,7 +157,8 @@ impl<S: Store> RateLimiter<S> {
             // Initialize TAT or get from store
             let tat = if let Some(stored_tat) = tat_val {
                 // Use stored TAT but ensure it's not too far in the past
-                let min_tat = now_ns.saturating_sub(delay_variation_tolerance_ns);
+                // (a stale TAT counts as a full bucket: the same start as a first request)
+                let min_tat = now_ns.saturating_sub(emission_interval_ns);
                 stored_tat.max(min_tat)
             } else {
                 // First request - start with TAT = now - emission_interval
